@@ -430,7 +430,10 @@ void LogsumHmmLikelihood::computeDForward_() const
       {
         num2 = dLogLikelihood_[i - 1] * trans.getCol(j);
 
-        dLogLikelihood_[i][j] = (*dEmissions)[j] / (*emissions)[j] + VectorTools::sumExp(num, num2) / VectorTools::sumExp(num, trans.getCol(j));
+        double den = VectorTools::sumExp(num, trans.getCol(j));
+
+        // den == 0: state j cannot be reached at this site, it carries no likelihood and no derivative
+        dLogLikelihood_[i][j] = (den > 0) ? (*dEmissions)[j] / (*emissions)[j] + VectorTools::sumExp(num, num2) / den : 0;
       }
     }
     else // Reset markov chain:
@@ -544,8 +547,8 @@ void LogsumHmmLikelihood::computeD2Forward_() const
 
         num3 = (dLogLikelihood_[i - 1] * dLogLikelihood_[i - 1] + d2LogLikelihood_[i - 1]) * trans.getCol(j);
 
-        d2LogLikelihood_[i][j] = (*d2Emissions)[j] / (*emissions)[j] - pow((*dEmissions)[j] / (*emissions)[j], 2)
-            + VectorTools::sumExp(num, num3) / den - pow(VectorTools::sumExp(num, num2) / den, 2);
+        d2LogLikelihood_[i][j] = (den > 0) ? (*d2Emissions)[j] / (*emissions)[j] - pow((*dEmissions)[j] / (*emissions)[j], 2)
+            + VectorTools::sumExp(num, num3) / den - pow(VectorTools::sumExp(num, num2) / den, 2) : 0;
       }
     }
     else // Reset markov chain:
